@@ -488,3 +488,27 @@ def type_branch_obligations(ctx, rule, rid):
     for gt in ("geoshape", "geotrace"):
         check(gt, {"allow-mock-accuracy": "true"}, {"odk:allow-mock-accuracy": "true"}, {}, 0)
         check(gt, {"capture-accuracy": "5"}, {}, {}, 0, reject=True)
+
+
+def toplevel_slice(fi, block, provided, module_has):
+    """[earlier top-level statements of fi that define what `block` reads ..., block]: the names `block` reads that are
+    neither `provided` by the caller's environment nor module-level (`module_has(name)`) are looked up among the simple
+    assignments that precede the block at the top level of the function, transitively (bounded)."""
+    body = fi.node.body
+    idx = next((i for i, st in enumerate(body) if st is block), None)
+    if idx is None:
+        raise AnalysisError("slice", "block is not a top-level statement of the function")
+    chosen = []
+    need = {n for n in _free_names([block], fi.module) if n not in provided and not module_has(n)}
+    for _ in range(12):
+        if not need:
+            break
+        nm = sorted(need)[0]
+        need.discard(nm)
+        src = next((st for st in reversed(body[:idx]) if isinstance(st, ast.Assign | ast.AnnAssign) and any(isinstance(x, ast.Name) and x.id == nm and isinstance(x.ctx, ast.Store) for x in ast.walk(st))), None)
+        if src is None or src in chosen:
+            continue
+        chosen.append(src)
+        need |= {n for n in _free_names([src], fi.module) if n not in provided and not module_has(n) and n != nm}
+    chosen.sort(key=lambda st: st.lineno)
+    return [*chosen, block]
